@@ -254,7 +254,9 @@ class ForwardScheduler(IScheduler):
         predecessors = [p for t in [_task] + [t for t in _task.all_parents] for p in t.predecessors]
 
         for pred in predecessors:
-            self.__forward_pass(pred, resource_usage, calculated)
+            # Tasks of other projects are taken as they are, only their dates are used
+            if pred.wbs == _task.wbs:
+                self.__forward_pass(pred, resource_usage, calculated)
 
         max_predecessor_ends = max([t.end for t in predecessors if t.end is not None] + [self.__start])
 
@@ -431,7 +433,9 @@ class BackwardScheduler(IScheduler):
         successors = [s for t in [_task] + [t for t in _task.all_parents] for s in t.successors]
 
         for succ in successors:
-            self.__backward_pass(succ, resource_usage, calculated)
+            # Tasks of other projects are taken as they are, only their dates are used
+            if succ.wbs == _task.wbs:
+                self.__backward_pass(succ, resource_usage, calculated)
 
         min_successor_starts = min([t.start for t in successors if t.start is not None] + [self.__end])
 
